@@ -532,6 +532,8 @@ func runC07(e *Engine, r *Report) {
 	ruleCampaignGuard(e, r, tbl)
 	ruleConfigChangeClearsPending(e, r)
 	ruleRemovedLeaderStepsDown(e, r)
+	ruleNotifyApplied(e, r)
+	ruleBootstrapSorted(e, r)
 	ruleCampaignPredicate(e, r)
 	ruleElectionMessageGuard(e, r)
 
